@@ -9,6 +9,7 @@
 extern "C" {
 #include <constraints.h>
 #include <asn_SET_OF.h>
+#include <OCTET_STRING.h>
 }
 
 namespace {
@@ -264,6 +265,28 @@ static Verdict exec_history(const Subject &s, const std::vector<Op> &ops, const 
                      "leak:" + (li.first_op >= 1 && li.first_op <= (int)ops.size() ? opsite(ops[li.first_op - 1]) : std::string("?")) + "/" + kind_name(kind_of(s.td))); break; }
         } else continue;
         if(sim_alloc_bad_free_count()) { fail(j, "bad-free", "library freed or reallocated a block the ledger does not hold (double or foreign free)"); break; }
+        // "fails or succeeds cleanly": whatever a decode call leaves behind describes its own memory truthfully - a list never claims
+        // more room than its array has, a string never more octets than its buffer (checked against the ledger, so that the next user
+        // of the structure - print, encode, ASN_SEQUENCE_ADD - is not led beyond a block)
+        if(slot && rec.ran && (op.name.rfind("decode", 0) == 0 || op.name == "redecode")) {
+            std::string bad;
+            walk(s.td, slot, [&](const Node &n) {
+                Kind k = kind_of(n.td);
+                if(k == K_SET_OF || k == K_SEQUENCE_OF) {
+                    const asn_anonymous_set_ *l = _A_CSET_FROM_VOID(n.ptr);
+                    size_t have = l->array && sim_alloc_is_live(l->array) ? sim_alloc_size_of(l->array) / sizeof(void *) : (l->array ? (size_t)-1 : 0);
+                    if(l->array && !sim_alloc_is_live(l->array)) bad = std::string("list ") + n.td->name + " points to an array that is not allocated any more";
+                    else if(l->count < 0 || l->size < 0 || l->count > l->size || (size_t)l->size > have)
+                        bad = std::string("list ") + n.td->name + " claims count " + L((long)l->count) + ", room for " + L((long)l->size) + " but its array holds " + (have == (size_t)-1 ? std::string("?") : L((long)have));
+                } else if(kind_octets(k)) {
+                    const OCTET_STRING_t *o = (const OCTET_STRING_t *)n.ptr;
+                    if(o->buf && sim_alloc_is_live(o->buf) && o->size > sim_alloc_size_of(o->buf))
+                        bad = std::string("string ") + n.td->name + " claims " + L((long)o->size) + " octets, its buffer has " + L((long)sim_alloc_size_of(o->buf));
+                }
+                return bad.empty(); }, 5000);
+            if(!bad.empty()) { fail(j, "inconsistent-structure", bad); break; }
+            G.add("c14.structure_invariant_checks");
+        }
         if(out_recs) (*out_recs)[j] = rec;
         (void)faulted_here;
     }
